@@ -107,6 +107,11 @@ Section P_C06_gen.
     mapM (fun u => u) (gen_us (fun n c x => enforce_col c n x) cds nets cols) =
     mapM (fun cn => enforce_col (fst cn) (snd cn) cols) (combine cds nets).
   Proof. exact (@gen_us_is_model S). Qed.
+
+  Theorem C06_gen_solution_holds : forall (N Cd : Type) (net : N) (nets : list N) (cds : list Cd),
+    gen_solution_nets (Some net) nets cds = nets_of_module net cds /\
+    gen_solution_nets None nets cds = nets /\ gen_solution_conditions cds = cds.
+  Proof. exact (@gen_solution_nets_is_model). Qed.
 End P_C06_gen.
 
 Section P_C06.
